@@ -43,9 +43,17 @@ from .abc import AbstractAsyncNetworkClient
 class _SocketConnector:
     factory: Callable[[], Awaitable[tuple[AsyncDatagramTransport, SocketProxy]]]
     scope: CancelScope
+    socket: _socket.socket | None = None  # The socket given by the user, until the factory takes its ownership.
+
+    def cancel(self) -> None:
+        self.scope.cancel()
+        socket, self.socket = self.socket, None
+        if socket is not None:
+            socket.close()
 
     async def get(self) -> tuple[AsyncDatagramTransport, SocketProxy] | None:
         result: tuple[AsyncDatagramTransport, SocketProxy] | None = None
+        self.socket = None
         with self.scope:
             result = await self.factory()
         return result
@@ -139,6 +147,7 @@ class AsyncUDPNetworkClient(AbstractAsyncNetworkClient[_T_SentPacket, _T_Receive
         self.__socket_connector: _SocketConnector | None = _SocketConnector(
             factory=_utils.make_callback(self.__create_socket, socket_factory),
             scope=backend.open_cancel_scope(),
+            socket=__arg if isinstance(__arg, _socket.socket) else None,
         )
         self.__socket_connector_lock: ILock = backend.create_lock()
         self.__receive_lock: ILock = backend.create_lock()
@@ -236,7 +245,7 @@ class AsyncUDPNetworkClient(AbstractAsyncNetworkClient[_T_SentPacket, _T_Receive
         Can be safely called multiple times.
         """
         if self.__socket_connector is not None:
-            self.__socket_connector.scope.cancel()
+            self.__socket_connector.cancel()
             self.__socket_connector = None
         try:
             await self.__send_lock.acquire()
